@@ -28,6 +28,9 @@ class BM(mesa.Model):
             return v if v is None else int(v)
         self.n, self.stop, self.ic, self.sc = i(g("n", 2)), i(g("stop", None)), i(g("ic", 0)), i(g("sc", 1))
         self.ar, self.churn, self.k = i(g("ar", 1)), i(g("churn", 0)), i(g("k", 0))
+        # agent churn BETWEEN two collects of one step: 1 all agents removed, 2 one created, 3 first removed,
+        # 4 all removed once the model has stopped (the final step)
+        self.mc = i(g("mc", 0))
         self.log = []
         self.t = 0
         areps = {"sv": lambda a: a.model.steps * 1000 + a.val, "val": "val"} if self.ar else None
@@ -52,6 +55,13 @@ class BM(mesa.Model):
                 self.t += self.steps + 1
                 for a in self.agents:
                     a.val += 1
+                if self.mc == 1 or (self.mc == 4 and not self.running):
+                    for a in list(self.agents):
+                        a.remove()
+                elif self.mc == 2:
+                    BAgent(self, self.k)
+                elif self.mc == 3 and len(self.agents) > 0:
+                    next(iter(self.agents)).remove()
             self._collect()
 
     def step(self):
